@@ -2,6 +2,8 @@ SPECIFICATION GenSpec
 CONSTANTS
   MaxDepth = 3
   MaxDefects = 2
+  MaxRenames = 1
+  MaxWithRename = 2
   Spares = {"none", "fresh", "twin"}
   Embeds = {"none", "genuine", "foreign"}
 INVARIANT Agree
